@@ -18,6 +18,15 @@ let string_of_n (x:n) : string =
   let rec go x acc = match x with N0 -> acc | _ ->
     let (q, r) = N.div_eucl x ten in go q (Char.chr (48 + int_of_n r) :: acc) in
   List.iter (Buffer.add_char buf) (go x []); Buffer.contents buf
+let z_of_string (s:string) : z =
+  if String.length s > 0 && s.[0] = '-' then
+    (match n_of_string (String.sub s 1 (String.length s - 1)) with N0 -> Z0 | Npos p -> Zneg p)
+  else (match n_of_string s with N0 -> Z0 | Npos p -> Zpos p)
+let string_of_z = function Z0 -> "0" | Zpos p -> string_of_n (Npos p) | Zneg p -> "-" ^ string_of_n (Npos p)
+let zbytes_of_hex h = if h = "-" then [] else
+  List.init (String.length h / 2) (fun i -> match n_of_int (int_of_string ("0x" ^ String.sub h (2*i) 2)) with N0 -> Z0 | Npos p -> Zpos p)
+let hex_of_zbytes bs = if bs = [] then "-" else
+  String.concat "" (List.map (fun b -> Printf.sprintf "%02x" (match b with Z0 -> 0 | Zpos p -> int_of_pos p | Zneg _ -> 0)) bs)
 let rec nat_of_int n = if n <= 0 then O else S (nat_of_int (n-1))
 let bytes_of_hex h = if h = "-" then [] else
   List.init (String.length h / 2) (fun i -> n_of_int (int_of_string ("0x" ^ String.sub h (2*i) 2)))
@@ -57,6 +66,14 @@ let run_case (line:string) : string =
   | "id2zxy" -> let ((z, x), y) = id_to_zxy (tn ts) in
     String.concat " " ["ok"; string_of_n z; string_of_n x; string_of_n y]
   | "parent" -> "ok " ^ string_of_n (parent_id (tn ts))
+  | "hdr_ser" ->
+    let vs = List.init 25 (fun _ -> z_of_string (tok ts)) in
+    "ok " ^ hex_of_zbytes (serialize ser_layout (list_header vs))
+  | "hdr_deser" ->
+    (match deserialize deser_layout (zbytes_of_hex (tok ts)) with
+     | Inl h -> "ok " ^ String.concat " " (List.init 25 (fun i -> string_of_z (h (nat_of_int i))))
+     | Inr Short -> "crash"
+     | Inr _ -> "err")
   | op -> "unknown-op " ^ op
 
 let () =
